@@ -253,7 +253,7 @@ CHECKS = {
         technique='scenario-based property testing (rapid) against a reference MTProto server with search-forced numeric corners',
         rule=('case = key-exchange scenario (RSA key, server_nonce, p<q primes, pq padding, g, server secret a, padding seed, optionally injected client nonce/new_nonce/b). '
               'Every completed run is non-trivial; classes record which field the server actually saw starting with zero bytes; distinct by hash of the scenario.'),
-        must_hit=['corner:nonce', 'corner:server_nonce', 'corner:new_nonce', 'corner:new_nonce_hash1', 'corner:rsa_ciphertext', 'corner:g_a', 'corner:g_b', 'corner:g_ab',
+        must_hit=['fingerprints:known-key-first', 'fingerprints:known-key-last', 'fingerprints:known-key-in-the-middle', 'corner:nonce', 'corner:server_nonce', 'corner:new_nonce', 'corner:new_nonce_hash1', 'corner:rsa_ciphertext', 'corner:g_a', 'corner:g_b', 'corner:g_ab',
                   'draws:client-own', 'draws:injected', 'pq:above-2^63', 'pq:small', 'verdict:ok'],
         assumptions=['the reference server is conformant: it follows core.telegram.org/mtproto/auth_key with fixed-width values (self-consistent: it completes with the fixed client)',
                      'DH group = Telegram\'s 2048-bit safe prime', 'a connect that the server side had to abandon (recorded reason) is judged by that reason, never by elapsed time'],
@@ -305,7 +305,7 @@ CHECKS = {
         technique='scenario-based property testing (rapid) with tagged requests against a scripted reference server; directed yield-point schedules',
         rule=('case = rpc scenario on a resumed session: callers x tagged requests, answer order/grouping/gzip/errors, optional hold of one sender until another request arrived, GOMAXPROCS. '
               'Non-trivial: >=2 requests answered out of order, a container, a gzip-packed result or a vector result; distinct by hash of the scenario.'),
-        must_hit=['feat:answered-out-of-order', 'feat:container', 'feat:gzip', 'feat:rpc-error', 'concurrent-callers', 'directed:answer-while-sender-in-send-path', 'feat:nested-container', 'verdict:ok'] +
+        must_hit=['feat:answered-out-of-order', 'feat:container', 'feat:gzip', 'feat:rpc-error', 'concurrent-callers', 'directed:answer-while-sender-in-send-path', 'feat:nested-container', 'feat:answers-to-requests-resent-after-salt-rotation', 'verdict:ok'] +
                  ['feat:%s:%s' % (k, f) for k in ('object', 'bool', 'vecint', 'veclong', 'vecobj') for f in ('plain', 'container', 'gzip')],
         assumptions=['requests are made through MakeRequest / MakeRequestWithHintToDecoder with the hint the generated method of that function passes, followed by the same type assertion',
                      'a stall verdict needs a quiescent deadlocked state seen in two goroutine dumps; anything else after the patience is inconclusive',
@@ -323,7 +323,7 @@ CHECKS = {
         technique='history invariants over generated scenarios (rapid) with a directed yield-point schedule against a reference server',
         rule=('case = rpc scenario (callers, answer schedule, interleaved server pushes, optional hold at send.msgid, GOMAXPROCS). Non-trivial: the received stream has two '
               'adjacent requests or an acknowledgement interleaved with requests; distinct by hash of the scenario.'),
-        must_hit=['feat:adjacent-requests', 'feat:ack-interleaved-with-requests', 'feat:content-related-in-container', 'directed:hold-after-msgid', 'server-history:content-related-push',
+        must_hit=['feat:adjacent-requests', 'feat:ack-interleaved-with-requests', 'feat:content-related-in-container', 'directed:hold-after-msgid', 'client-ping', 'server-history:content-related-push',
                   'server-history:service-push', 'server-history:close-and-reconnect', 'feat:stream-continues-after-reconnect', 'concurrent-callers', 'verdict:ok'],
         assumptions=['seq_no: the statement demands parity and monotonicity, not the exact value 2*count',
                      'no clock hook: equal clock readings for two messages are unreachable here (a write system call separates two reads under the send lock)',
@@ -341,7 +341,7 @@ CHECKS = {
         technique='history enumeration (small) + generation (rapid) of salt-rotation scenarios against a reference server; state inspection for stalls',
         rule=('case = plan (fresh|resumed; per rotation: accepted-before, rejected-by, answered-now counts, announcement kind, answer order). Non-trivial: at least one rotation with '
               'a pending request; distinct by hash of the script.'),
-        must_hit=['fresh-keyed+rotation', 'second-rotation', 'accepted+rejected-mixed', 'pending-across-two-rotations', 'rotation-with-nothing-pending', 'salt-by-new_session_created',
+        must_hit=['fresh-keyed+rotation', 'second-rotation', 'rejected-message-is-an-ack', 'accepted+rejected-mixed', 'pending-across-two-rotations', 'rotation-with-nothing-pending', 'salt-by-new_session_created',
                   'session:resumed', 'verdict:ok'],
         assumptions=['acknowledgements that the server rejects for their stale salt are not "requests": only tagged RPC requests are counted',
                      'the hook after an adoption fires after the salt was assigned and saved, so a concurrently written message may already carry it: a newer salt is never blamed',
@@ -360,7 +360,7 @@ CHECKS = {
         technique='history generation (rapid) + per-event enumeration against a scripted reference server with a live client per case; state inspection for a stopped loop',
         rule=('case = list of server events with wrapping flags; after each a probe. Non-trivial: at least one event other than pong/ack; distinct by hash of the event list.'),
         must_hit=['event:' + k for k in ('pong', 'ack', 'new-session', 'bad-msg', 'state-info', 'all-info', 'detailed-info', 'new-detailed-info', 'future-salts', 'result-unknown',
-                  'result-again', 'error-unknown', 'update', 'updates-too-long', 'unknown-ctor', 'truncated', 'empty-body', 'empty-container', 'nested-container', 'raw-soup', 'close', 'bad-salt-unknown', 'bad-salt-answered', 'rotate')] + ['schema-object:mtproto.tl', 'schema-object:api_latest.tl'] +
+                  'result-again', 'error-unknown', 'update', 'updates-too-long', 'unknown-ctor', 'truncated', 'empty-body', 'empty-container', 'nested-container', 'raw-soup', 'gzip-damaged', 'close', 'bad-salt-unknown', 'bad-salt-answered', 'rotate')] + ['schema-object:mtproto.tl', 'schema-object:api_latest.tl'] +
                  ['event-gzip-packed', 'event-in-container', 'handler-called', 'warning-surfaced', 'verdict:ok'],
         assumptions=['"close" is an orderly close (FIN); an abortive close (RST) is outside the statement - observed: the client then neither reconnects nor reports anything (noted in DESIGN.md)',
                      'a request made while the client swaps connections may fail with a write error; the probe after a close is repeated until the new connection is in use',
